@@ -274,7 +274,7 @@ theorem handle_app_flags (O : Session.Ops Dec) (m : Bool) (s : Session.St Dec) (
           split
           · exact ⟨rfl, rfl⟩
           · split
-            · split <;> exact ⟨rfl, rfl⟩
+            · split <;> (cases d <;> exact ⟨rfl, rfl⟩)
             · split <;> exact ⟨rfl, rfl⟩
     · unfold Session.appLegacy
       split
@@ -328,7 +328,7 @@ theorem step12 (H : Crypto.Prims) (P : Prims) (L : SealLaws P) (kl : List Keylog
         intro d'; simp [Spec.TlsConnection.plainOf]
     · obtain ⟨_, _, _, h, _⟩ := hall _ (List.mem_cons_self ..); cases h
   | ccs =>
-    obtain ⟨a1, a2, a3, a4, a5, _, a7⟩ := handleRecord_ccs (Pipeline.ops H P kl) false s
+    obtain ⟨a1, a2, a3, a4, a5, _, a7, a8, a9⟩ := handleRecord_ccs (Pipeline.ops H P kl) false s
       ⟨record 20 ver [1], car⟩ d (record_typ 20 ver [1] car)
     have hx : x' = x := set_get x d
     rw [hx]
@@ -338,7 +338,7 @@ theorem step12 (H : Crypto.Prims) (P : Prims) (L : SealLaws P) (kl : List Keylog
       | nil =>
         simp only [List.map_nil, List.nil_append, List.cons.injEq, true_and] at hl
         subst hl
-        refine ⟨hs.of_eq a1 a2 a3, Or.inr ⟨a4, hrest⟩, a5, ?_, by omega, by omega⟩
+        refine ⟨hs.of_eq a1 a2 a3 a8 a9, Or.inr ⟨a4, hrest⟩, a5, ?_, by omega, by omega⟩
         intro d'
         show dirPlain d' (Session.handleRecord _ false s ⟨record 20 ver [1], car⟩ d).traffic = _
         rw [a7 rfl]; simp [Spec.TlsConnection.plainOf]
@@ -500,11 +500,11 @@ theorem step13 (H : Crypto.Prims) (P : Prims) (L : SealLaws P) (kl : List Keylog
     max x'.c.seq x'.s.seq ≤ max x.c.seq x.s.seq + cost [e] := by
   intro s' x'
   rcases hsc with rfl | ⟨ms, f, rfl⟩ | ⟨pt, f, rfl⟩
-  · obtain ⟨a1, a2, a3, _, _, _, a7⟩ := handleRecord_ccs (Pipeline.ops H P kl) false s
+  · obtain ⟨a1, a2, a3, _, _, _, a7, a8, a9⟩ := handleRecord_ccs (Pipeline.ops H P kl) false s
       ⟨record 20 ver [1], car⟩ d (record_typ 20 ver [1] car)
     have hx : x' = x := set_get x d
     rw [hx]
-    refine ⟨hs.of_eq a1 a2 a3, ?_, by omega⟩
+    refine ⟨hs.of_eq a1 a2 a3 a8 a9, ?_, by omega⟩
     intro d'
     show dirPlain d' (Session.handleRecord _ false s ⟨record 20 ver [1], car⟩ d).traffic = _
     rw [a7 rfl]; simp [Spec.TlsConnection.plainOf]
@@ -798,5 +798,76 @@ theorem cost_length (l : List DirEv) (h : ∀ e ∈ l, ∀ ms f, e ≠ DirEv.hs1
     cases e with
     | hs13 ms f => exact absurd rfl (h _ (by simp) ms f)
     | _ => simp [cost, this]; omega
+
+-- ------------------------------------------------------------------ the TLS 1.3 handshake buffers after the hellos
+theorem serverHello_bufs (O : Session.Ops Dec) (s : Session.St Dec) (r : Session.Rec) :
+    (Session.serverHello O s r).st.hsBufC = s.hsBufC ∧ (Session.serverHello O s r).st.hsBufS = s.hsBufS := by
+  have hl : (Session.latch s).hsBufC = s.hsBufC ∧ (Session.latch s).hsBufS = s.hsBufS := by
+    unfold Session.latch; split <;> exact ⟨rfl, rfl⟩
+  have hc : ∀ (t : Session.St Dec) (a b : Nat) (c : Bool),
+      (Session.chooseVersion t a b c).hsBufC = t.hsBufC ∧ (Session.chooseVersion t a b c).hsBufS = t.hsBufS := by
+    intro t a b c; unfold Session.chooseVersion; repeat' split
+    all_goals exact ⟨rfl, rfl⟩
+  have hk : ∀ (t : Session.St Dec) (su sr : Bytes) (e : Session.Exts) (c : UInt8),
+      (Session.serverHelloKeys O t su sr e c).st.hsBufC = t.hsBufC ∧
+      (Session.serverHelloKeys O t su sr e c).st.hsBufS = t.hsBufS := by
+    intro t su sr e c; unfold Session.serverHelloKeys
+    cases t.cr with
+    | none => exact ⟨rfl, rfl⟩
+    | some cr => simp only; split <;> exact ⟨rfl, rfl⟩
+  unfold Session.serverHello
+  simp only
+  split
+  · exact hl
+  · split
+    · exact hl
+    · exact ⟨(hk _ _ _ _ _).1.trans ((hc _ _ _ _).1.trans hl.1), (hk _ _ _ _ _).2.trans ((hc _ _ _ _).2.trans hl.2)⟩
+
+/-- after the ClientHello and the ServerHello record (RFC-encoded, no ChangeCipherSpec seen before) both TLS 1.3
+    handshake buffers are empty: the ClientHello clears them, the ServerHello does not touch them -/
+theorem hello_pair_bufs (O : Session.Ops Dec) (m : Bool) (s0 : Session.St Dec)
+    (h0 : s0.srvCC = false ∧ s0.cliCC = false) (rvC rvS : Bytes) (hrc : rvC.length = 2) (hrs : rvS.length = 2)
+    (ch : Spec.TlsHello.ClientHello) (hch : ch.WellFormed) (sh : Spec.TlsHello.ServerHello) (c0 c1 : List Nat) :
+    ∀ d, (Session.handleRecord O m (Session.handleRecord O m s0
+        ⟨record 22 rvC (Spec.TlsHello.encodeClientHello ch), c0⟩ false)
+        ⟨record 22 rvS (Spec.TlsHello.encodeServerHello sh), c1⟩ true).hsBuf d = [] := by
+  have hfalse : ∀ (s0 : Session.St Dec), s0.srvCC = false ∧ s0.cliCC = false →
+      ∀ d, (Session.handleRecord O false (Session.handleRecord O false s0
+        ⟨record 22 rvC (Spec.TlsHello.encodeClientHello ch), c0⟩ false)
+        ⟨record 22 rvS (Spec.TlsHello.encodeServerHello sh), c1⟩ true).hsBuf d = [] := by
+    intro s0 h0 d
+    rw [handle_clientHello O s0 h0 rvC hrc ch hch c0]
+    obtain ⟨shrest, hshd⟩ : ∃ rest, Spec.TlsHello.encodeServerHello sh = 2 :: rest :=
+      ⟨_, by simp only [Spec.TlsHello.encodeServerHello, Spec.TlsHello.handshake, Lemmas.TlsHello.u8_eq,
+        List.cons_append, List.nil_append]; rfl⟩
+    have hb := serverHello_bufs O (Session.clientHello s0 ⟨record 22 rvC (Spec.TlsHello.encodeClientHello ch), c0⟩)
+      ⟨record 22 rvS (Spec.TlsHello.encodeServerHello sh), c1⟩
+    have hcore : (Session.handleRecord O false (Session.clientHello s0 ⟨record 22 rvC (Spec.TlsHello.encodeClientHello ch), c0⟩)
+        ⟨record 22 rvS (Spec.TlsHello.encodeServerHello sh), c1⟩ true)
+        = (Session.tryExcept (Session.serverHello O (Session.clientHello s0 ⟨record 22 rvC (Spec.TlsHello.encodeClientHello ch), c0⟩)
+            ⟨record 22 rvS (Spec.TlsHello.encodeServerHello sh), c1⟩) fun s' => { s' with canDecrypt := false }).st := by
+      unfold Session.handleRecord Session.handleRecordRaw
+      rw [record_typ]
+      simp only [if_true, Session.handshakeRecord, Session.clientHello, Bool.or_self, Bool.false_eq_true, if_false,
+        record_body 22 rvS _ c1 hrs]
+      rw [hshd]
+      have h21 : ((2 : UInt8) = 1) = False := by decide
+      simp only [h21, if_false, if_true]
+      cases Session.serverHello O _ _ <;> rfl
+    rw [hcore]
+    cases hsh : Session.serverHello O (Session.clientHello s0 ⟨record 22 rvC (Spec.TlsHello.encodeClientHello ch), c0⟩)
+        ⟨record 22 rvS (Spec.TlsHello.encodeServerHello sh), c1⟩ with
+    | ok s' => rw [hsh] at hb; cases d <;> simp [Session.tryExcept, Session.Out.st, Session.St.hsBuf, hb.1, hb.2, Session.clientHello] at hb ⊢ <;> simp [hb]
+    | raised s' => rw [hsh] at hb; cases d <;> simp [Session.tryExcept, Session.Out.st, Session.St.hsBuf, hb.1, hb.2, Session.clientHello] at hb ⊢ <;> simp [hb]
+  cases m
+  · exact hfalse s0 h0
+  · intro d
+    have h1 := Session.handleRecord_strip O s0 ⟨record 22 rvC (Spec.TlsHello.encodeClientHello ch), c0⟩ false
+    have h2 := Session.handleRecord_strip O (Session.handleRecord O true s0
+      ⟨record 22 rvC (Spec.TlsHello.encodeClientHello ch), c0⟩ false) ⟨record 22 rvS (Spec.TlsHello.encodeServerHello sh), c1⟩ true
+    rw [h1] at h2
+    have := hfalse s0.strip h0 d
+    rw [← h2, Session.strip_hsBuf] at this
+    exact this
 
 end TLX.Lemmas.Capstone
